@@ -492,7 +492,7 @@ func (s *sim) checkDiagnostics(diags []diagNote) {
 		s.r.Fail("diagnostics", "not-published kind="+ln.kind, fmt.Sprintf("no diagnostics were published for %s after %s (version %d): the last published ones belong to an older text; last message: %s", ln.uri, ln.kind, ln.version, s.lastDesc))
 		return
 	}
-	if last.Version != nil && *last.Version != ln.version {
+	if last.Version != nil && *last.Version != ln.version && ln.version > 0 {
 		s.r.Fail("diagnostics", "stale-version", fmt.Sprintf("diagnostics for %s carry version %d, the document is at version %d", ln.uri, *last.Version, ln.version))
 	}
 	_, errs := gosqlx.ParseWithRecovery(m.text)
